@@ -88,12 +88,18 @@ Print Assumptions C07_roundtrip_casefold_refuted.
       up to letter case (encoding/json would match it too); [nums_ok] — every number in the document
       fits a float64 (the code also unmarshals the whole document into map[string]interface{}).
       Holds with and without the cipher = "aes-128-ctr" requirement of the specification
-      (the code never looks at that member: known finding C15/cipher-ignored). *)
+      (the code never looks at that member: known finding C15/cipher-ignored).
+      (referee round) Third guard [doc_alloc_ok]: the document's scrypt n and r satisfy 128*n*r <= 2^48.
+      scrypt.Key allocates its work area make([]uint32, 32*N*r) after its parameter test and the Go runtime
+      panics beyond 2^48 bytes (a standard file with n = 2^42, r = 1 makes ReadWalletFile panic; the model
+      has that panic since this round, see Properties/C15.v); at or below the cap the model assumes the
+      allocation succeeds (memory exhaustion is a process death, not modelled).  Documents without a scrypt
+      n / r (PBKDF2 files) meet the guard trivially. *)
 Theorem C07_read_is_standard :
   forall (P : prims), crypto_laws P -> uuid_accepts_text P ->
   forall (check_cipher : bool) (doc : json) (pw key : bytes),
     v3_decrypt_gen check_cipher P doc pw = Ok key ->
-    unambiguous doc = true -> nums_ok P doc = true ->
+    unambiguous doc = true -> nums_ok P doc = true -> ReadTypes.doc_alloc_ok doc = true ->
     exists w, read_wallet_tree P doc pw = Ok w /\ PrivateKey w = key /\
               exists id, v3_id doc = Some id /\ GetID w = uuid_parse P id /\ GetID w <> None.
 Proof. exact read_is_standard. Qed.
@@ -208,6 +214,7 @@ Example C07_nonvacuous :
       is_ok (read_wallet_tree toy (JSON_tree w2) pw) = true /\
       (* the hypotheses of theorem 3 are met by that document *)
       is_ok (v3_decrypt toy (JSON_tree w2) pw) = true /\ unambiguous (JSON_tree w2) = true /\ nums_ok toy (JSON_tree w2) = true /\
+      ReadTypes.doc_alloc_ok (JSON_tree w2) = true /\
       (* a wrong password is rejected *)
       is_ok (read_wallet_tree toy (JSON_tree w2) (ascii_bytes "pässword")) = false
   | _ => False
@@ -290,3 +297,135 @@ Example C07_read_wallet_reread_nonvacuous :
   | None => False
   end.
 Proof. exact ProofsReread.read_wallet_reread_nonvacuous. Qed.
+
+(* 7. (referee round, design/reviews/C07.md) *)
+From FFS Require Keystore.ReadTypes Keystore.ProofsReferee.
+Local Open Scope list_scope.
+
+(* I1. The address.  The conjunct [kp_address (KeyPair P wr) = address_of_key P (key_of c)] of C07_roundtrip
+       follows from the key conjunct by the definition of KeyPair; what links the file to the address OF THE
+       CREATING KEY PAIR is the metadata entry "address": a wallet made from a key pair (either preset), after
+       any assignments that leave "address" alone, is read back with that entry = hex of the pair's address;
+       and when the pair's address is the address of its private key (what secp256k1.KeyPair guarantees),
+       it is the hex of the address of the key pair the read wallet hands out. *)
+Theorem C07_roundtrip_address :
+  forall (P : prims), crypto_laws P ->
+  (forall t, json_text_ok t = true -> json_parse P (json_print P t) = Some t) ->
+  (forall u, length u = 16%nat -> uuid_parse P (uuid_string u) = Some u) ->
+  (forall z, json_num P (print_Z z) <> None) ->
+  forall (light : bool) (pw : bytes) (kp : keypair) (rnd : bytes) (w : wallet) (rest : bytes) (extras : list (bytes * json)),
+    let c := if light then MkLight pw kp else MkStandard pw kp in
+    create P c rnd = Ok (w, rest) -> Forall (extra_ok P) extras ->
+    Forall (fun e => fst e <> ProofsReferee.address_key) extras ->
+    exists wr, ReadWalletFile P (JSON P (assign_all w extras)) pw = Ok wr /\
+      PrivateKey wr = kp_private kp /\
+      mget ProofsReferee.address_key (Metadata wr) = Some (JStr (hex_encode (kp_address kp))) /\
+      (kp_address kp = address_of_key P (kp_private kp) ->
+       mget ProofsReferee.address_key (Metadata wr) = Some (JStr (hex_encode (kp_address (KeyPair P wr))))).
+Proof. exact ProofsReferee.roundtrip_address. Qed.
+Print Assumptions C07_roundtrip_address.
+
+(* I2. The colliding pair, named.  [collision (hash P)] in theorems 4 is true of every hash with 32-byte
+       output by counting; here the two MAC inputs are the witnesses: equal digests unconditionally, and
+       either the same ciphertext and MAC key or two DIFFERENT byte strings -- these two. *)
+Theorem C07_tamper_explicit :
+  forall (P : prims) t1 pw1 w1 t2 pw2 w2,
+    read_wallet_tree P t1 pw1 = Ok w1 -> read_wallet_tree P t2 pw2 = Ok w2 ->
+    cc_mac (w_crypto w1) = cc_mac (w_crypto w2) ->
+    let x1 := mac_key P w1 pw1 ++ cc_ciphertext (w_crypto w1) in
+    let x2 := mac_key P w2 pw2 ++ cc_ciphertext (w_crypto w2) in
+    hash P x1 = hash P x2 /\
+    ((cc_ciphertext (w_crypto w1) = cc_ciphertext (w_crypto w2) /\ mac_key P w1 pw1 = mac_key P w2 pw2) \/ x1 <> x2).
+Proof. exact ProofsReferee.tamper_explicit. Qed.
+Print Assumptions C07_tamper_explicit.
+
+Theorem C07_wrong_password_explicit :
+  forall (P : prims) t pw pw' w w',
+    read_wallet_tree P t pw = Ok w -> read_wallet_tree P t pw' = Ok w' ->
+    w_crypto w' = w_crypto w /\ w_kdfparams w' = w_kdfparams w /\
+    let ct := cc_ciphertext (w_crypto w) in
+    hash P (mac_key P w pw ++ ct) = hash P (mac_key P w pw' ++ ct) /\
+    (mac_key P w pw = mac_key P w pw' \/ mac_key P w pw ++ ct <> mac_key P w pw' ++ ct).
+Proof. exact ProofsReferee.wrong_password_explicit. Qed.
+Print Assumptions C07_wrong_password_explicit.
+
+(* I3. "returns an error".  Reading never panics within the cost cap (this is C15_total; beyond the cap
+       scrypt.Key panics in makeslice, see Properties/C15.v) ... *)
+Theorem C07_read_never_panics :
+  forall (P : prims) (data pw : bytes), ReadTypes.cost_capped_bytes P data = true -> ReadWalletFile P data pw <> Panic.
+Proof. exact ProofsReferee.read_never_panics. Qed.
+Print Assumptions C07_read_never_panics.
+
+(* ... and tampering / another password is an ERROR (not a key, not a panic) unless the two named MAC
+   inputs have the same digest.  (t1, pw1) was accepted; t2 is ANY document within the cap whose decoded MAC
+   member still equals the accepted one -- the same file with ciphertext, salt, n, r, p, c, kdf, IV changed
+   in any way --, read with any password.  [decode_content] is the model's transcription of
+   encoding/json's typed decoding (what "the file with field f changed" decodes to is not proved
+   separately).  Nothing is assumed about the hash; for a collision-resistant one the hypothesis holds
+   whenever the inputs differ. *)
+Theorem C07_tamper_rejected :
+  forall (P : prims) t1 pw1 w1 t2 pw2 cf2 cc2 kp2,
+    read_wallet_tree P t1 pw1 = Ok w1 ->
+    ReadTypes.cost_capped P t2 = true ->
+    ReadTypes.decode_content P t2 = Some (cf2, cc2, kp2) ->
+    cc_mac cc2 = cc_mac (w_crypto w1) ->
+    hash P (skipn 16 (ProofsReferee.dk_of P kp2 pw2) ++ cc_ciphertext cc2)
+      <> hash P (mac_key P w1 pw1 ++ cc_ciphertext (w_crypto w1)) ->
+    exists e, read_wallet_tree P t2 pw2 = Err e.
+Proof. exact ProofsReferee.tamper_rejected. Qed.
+Print Assumptions C07_tamper_rejected.
+
+Theorem C07_wrong_password_rejected :
+  forall (P : prims) t pw w pw',
+    read_wallet_tree P t pw = Ok w ->
+    hash P (mac_key P w pw' ++ cc_ciphertext (w_crypto w)) <> hash P (mac_key P w pw ++ cc_ciphertext (w_crypto w)) ->
+    exists e, read_wallet_tree P t pw' = Err e.
+Proof. exact ProofsReferee.wrong_password_rejected. Qed.
+Print Assumptions C07_wrong_password_rejected.
+
+(* I5. The one unconditional rejection: a changed MAC, everything else (ciphertext, KDF parameters,
+       password) as in an accepted file, is an error -- no hypothesis on the hash at all. *)
+Theorem C07_mac_changed_rejected :
+  forall (P : prims) t1 pw w1 t2 cf2 cc2,
+    read_wallet_tree P t1 pw = Ok w1 ->
+    ReadTypes.decode_content P t2 = Some (cf2, cc2, w_kdfparams w1) ->
+    cc_ciphertext cc2 = cc_ciphertext (w_crypto w1) ->
+    cc_mac cc2 <> cc_mac (w_crypto w1) ->
+    exists e, read_wallet_tree P t2 pw = Err e.
+Proof. exact ProofsReferee.mac_changed_rejected. Qed.
+Print Assumptions C07_mac_changed_rejected.
+
+Theorem C07_same_input_same_mac :
+  forall (P : prims) t1 pw1 w1 t2 pw2 w2,
+    read_wallet_tree P t1 pw1 = Ok w1 -> read_wallet_tree P t2 pw2 = Ok w2 ->
+    cc_ciphertext (w_crypto w1) = cc_ciphertext (w_crypto w2) -> mac_key P w1 pw1 = mac_key P w2 pw2 ->
+    cc_mac (w_crypto w1) = cc_mac (w_crypto w2).
+Proof. exact ProofsReferee.same_input_same_mac. Qed.
+Print Assumptions C07_same_input_same_mac.
+
+(* I6. Non-vacuity of the PBKDF2 half of theorem 3 and of the error-form statements: a PBKDF2 document
+       (c = 1 and c = 4096, members in another order than the writer's) is decrypted by the full standard,
+       meets the three guards, is read to the same key; another password is refused by both, and its MAC
+       input has another digest (hypothesis of C07_wrong_password_rejected). *)
+Example C07_pbkdf2_nonvacuous :
+  let pw := [x70; x77] in
+  let key := [x01; x02; x03; x04] in
+  v3_decrypt toy (ProofsReferee.toy_pbkdf2_doc 1 pw key) pw = Ok key /\
+  v3_decrypt toy (ProofsReferee.toy_pbkdf2_doc 4096 pw key) pw = Ok key /\
+  unambiguous (ProofsReferee.toy_pbkdf2_doc 4096 pw key) = true /\ nums_ok toy (ProofsReferee.toy_pbkdf2_doc 4096 pw key) = true /\
+  ReadTypes.doc_alloc_ok (ProofsReferee.toy_pbkdf2_doc 4096 pw key) = true /\
+  match read_wallet_tree toy (ProofsReferee.toy_pbkdf2_doc 4096 pw key) pw with Ok w => PrivateKey w = key | _ => False end /\
+  match read_wallet_tree toy (ProofsReferee.toy_pbkdf2_doc 1 pw key) pw with Ok w => PrivateKey w = key | _ => False end /\
+  v3_decrypt toy (ProofsReferee.toy_pbkdf2_doc 4096 pw key) [x70] = Err SMac /\
+  is_err (read_wallet_tree toy (ProofsReferee.toy_pbkdf2_doc 4096 pw key) [x70]) = true.
+Proof. exact ProofsReferee.pbkdf2_read_is_standard_nonvacuous. Qed.
+
+Example C07_wrong_password_rejected_nonvacuous :
+  let pw := [x70; x77] in
+  let t := ProofsReferee.toy_pbkdf2_doc 4096 pw [x01; x02; x03; x04] in
+  match read_wallet_tree toy t pw with
+  | Ok w => bytes_eqb (hash toy (mac_key toy w [x70] ++ cc_ciphertext (w_crypto w)))
+                      (hash toy (mac_key toy w pw ++ cc_ciphertext (w_crypto w))) = false
+  | _ => False
+  end.
+Proof. exact ProofsReferee.wrong_password_rejected_nonvacuous. Qed.
